@@ -196,7 +196,7 @@ def pool_proof(work):
 
 def env_model(work):
     cfg = ('CONSTANTS\n Keys = {k1, k2, k3}\n Bufs = {b1, b2}\n KeyLen = 8\n MaxOps = 6\n BufferAppendOnly = FALSE\n AliasCaller = FALSE\n'
-           ' WriteTerminator = FALSE\nINIT Init\nNEXT Next\nINVARIANTS CallerUntouched KeysOwned BoundedRetention EmptyRetainsNothing\nCHECK_DEADLOCK FALSE\n')
+           ' WriteTerminator = FALSE\n QueryMemo = "none"\nINIT Init\nNEXT Next\nINVARIANTS CallerUntouched KeysOwned BoundedRetention EmptyRetainsNothing QueriesTransparent\nCHECK_DEADLOCK FALSE\n')
     r = simple_model(work, "ArtEnv", cfg)
     if r.violation or not r.ok:
         raise Infra("ArtEnv model: %s %s" % (r.violation, r.error or r.out_tail))
@@ -285,9 +285,10 @@ def check_C17(work, prop, tier, seed, t0):
         kinds += [("int32", "random"), ("collation/runes/und", "text"), ("collation/string/en-num", "text"), ("uint8", "fan1"), ("alpha/string", "fan2")]
     jobs = [Job("mem:%s:%s" % (k, u), "plain", ["mem", "-kind", k, "-u", u, "-seed", str(seed), "-ops", str(ops)]) for k, u in kinds]
     return env_check(work, prop, tier, seed, t0, jobs, ["Inv_C17", "Inv_C01", "Inv_C02", "Inv_C06"], model_runs,
-                     "one dedicated process per kind; on a tree of bounded size: %d queries, %d overwrites, %d delete/re-insert operations, then "
+                     "one dedicated process per kind; on a tree of bounded size: %d mixed queries, five runs of %d queries of ONE kind each (search, range, prefix, "
+                     "min/max/top/bottom, walks), %d overwrites, %d delete/re-insert operations, then "
                      "every key deleted; live heap after two forced collections at 5 checkpoints per phase; judged by the specification's bounds "
-                     "(growth within a phase <= 512 KiB, emptied tree <= 512 KiB above the heap before the first insert)" % (ops, ops, ops),
+                     "(growth within a phase <= 512 KiB, emptied tree <= 512 KiB above the heap before the first insert)" % (ops, ops // 2, ops, ops),
                      ["heap measurements include the harness's own constant allocations; thresholds are ~50x the observed noise and well below a 16 B/op leak at these counts"],
                      level="exploration")
 
@@ -297,7 +298,9 @@ def check_C18(work, prop, tier, seed, t0):
     model_runs = [env_model(work)]
     vts = ["int", "string", "ptr", "bytes", "zero", "big", "rich"]
     kinds = [("alpha/string", "random"), ("uint32", "random"), ("float64", "random"), ("collation/string/und", "text"), ("compound/u8+str", "tuple"),
-             ("alpha/bytes", "vlong"), ("collation/bytes/und", "text")]
+             ("alpha/bytes", "vlong"), ("collation/bytes/und", "text"),
+             # sort keys beyond the collator buffer's 4 KiB inline array: the stored copy must be the tree's own
+             ("collation/string/und", "textlong")]
     if not q:
         kinds += [("alpha/bytes", "long"), ("int64", "random"), ("int8", "fan1"), ("float32", "random"), ("collation/bytes/sv", "text"),
                   ("collation/runes/und", "text"), ("uint8", "fan1")]
